@@ -23,6 +23,11 @@ C43-NESTDEPTH  (no repair available: reported as a known finding) the recursive-
                default recursion limit (1000) and the nesting CPython itself accepts (100 levels, tokenizer MAXLEVEL is 200) the necessary
                condition  cycle * 100 < limit  must hold unless the compiler raises the limit (sys.setrecursionlimit in Cython/Compiler or
                Cython/Utils.py) or converts RecursionError into a positioned error.
+C43-DOCTYPE    the docstring slot of def / class nodes is consumed as str.  Domain: the node classes of ExprNodes with is_string_literal = True,
+               value kind (bytes / str) from their `type` class attribute.  For each function of Parsing.py that tests .is_string_literal and
+               takes <var>.value, every (binding of var, use of var.value) pair is decided per class by three-valued evaluation of the path
+               conditions (isinstance through the class graph, `is None`, early returns): a bytes-valued class for which binding and use are
+               jointly possible is a violation (`def f(): b'x'` crashed AutoTestDictTransform).
 Static only: ASTs of the repository sources; nothing is imported or run.
 """
 import ast
